@@ -1,5 +1,5 @@
 -------------------------------- MODULE Wire --------------------------------
-(* Request serialisation on the wire (properties C10; C11 will extend the framing section).   *)
+(* Request serialisation on the wire (properties C10 and C11; BodyFraming.tla builds on it).    *)
 (*                                                                                             *)
 (* A request is a record over SYMBOLS.  A symbol is a string: the seven named symbols below    *)
 (* (CR LF NUL DEL SP HT and NA = one non-ASCII character) or a one-character string for a       *)
@@ -9,13 +9,14 @@
 (*           method : Seq(Symbol),                                                             *)
 (*           slash  : BOOLEAN, url : Seq(Symbol),          target input = ("/" if slash) \o url *)
 (*           hdrs   : Seq([n : Seq(Symbol), v : Seq(Symbol), skip : BOOLEAN]),                  *)
-(*           body   : [kind : "none"|"bytes"|"str"|"iter"|"file", chunks : Seq(Seq(Symbol))]]   *)
+(*           body   : [kind : "none"|"bytes"|"str"|"iter"|"file"|..., chunks : Seq(Seq(Symbol))], *)
+(*           chunked : BOOLEAN]                            the caller's chunked flag           *)
 (*                                                                                             *)
-(* Structure (keep it: C11 extends section 4 only)                                             *)
+(* Structure                                                                                   *)
 (*   1  symbols, character classes, small sequence helpers                                      *)
 (*   2  normalisation: method, request target (percent-encoding, fragment removal)              *)
 (*   3  header lines: caller lines, automatic lines, SKIP_HEADER                               *)
-(*   4  framing and body bytes                      <- extension point for C11                  *)
+(*   4  framing decision table and body bytes (C10, C11)                                        *)
 (*   5  Serialize: the one canonical message                                                    *)
 (*   6  Parse: an independent, paranoid request parser for a symbol stream                      *)
 (*   7  C10: the three-valued expectation, the judge of one execution, the invariants           *)
@@ -195,20 +196,47 @@ AutoUA(req) == IF Mentions(req, UAKey) THEN <<>> ELSE <<Line(UADisp, UAValue)>>
 BadSkip(req) == \E i \in 1..Len(req.hdrs) : req.hdrs[i].skip /\ LowerSeq(req.hdrs[i].n) \notin Skippable
 
 -----------------------------------------------------------------------------
-(* 4  Framing and body bytes (C11 extends this section)                        *)
+(* 4  Framing and body bytes: the framing decision table (C10 and C11)         *)
+(*                                                                                             *)
+(* req.body.kind is "none", a kind whose length is known up front (SizedKinds: bytes, str, any     *)
+(* buffer object) or a kind that is streamed (file-like objects, iterables); req.body.chunks is      *)
+(* what the body yields on THIS attempt; text kinds are encoded as UTF-8 chunk by chunk.             *)
+(* req.chunked is the caller's chunked flag; a Content-Length / Transfer-Encoding header among         *)
+(* req.hdrs is a caller framing header.  Decision table of HTTPConnection.request:                     *)
+(*                                                                                             *)
+(*   chunked flag | caller header | body        | method        || delimits the body | automatic header *)
+(*   TRUE         | any           | any         | any           || chunked           | TE unless caller TE *)
+(*   FALSE        | Content-Len.  | any         | any           || caller's length   | -                *)
+(*   FALSE        | Transfer-Enc. | any         | any           || chunked           | -                *)
+(*   FALSE        | none          | none        | GET-like      || nothing           | -                *)
+(*   FALSE        | none          | none        | other         || Content-Length 0  | Content-Length: 0 *)
+(*   FALSE        | none          | sized       | any           || Content-Length n  | Content-Length: n *)
+(*   FALSE        | none          | streamed    | any           || chunked           | TE: chunked       *)
 
-Payload(req) == IF req.body.kind = "str" THEN Utf8(Flatten(req.body.chunks)) ELSE Flatten(req.body.chunks)
+SizedKinds == {"bytes", "str", "buffer"}
+TextKinds == {"str", "textfile", "strlist"}
+EncChunk(req, c) == IF req.body.kind \in TextKinds THEN Utf8(c) ELSE c
+Payload(req) == Flatten([i \in 1..Len(req.body.chunks) |-> EncChunk(req, req.body.chunks[i])])
 MethodExpectsBody(m) == UpperSeq(m) \notin NoBodyMethods
+CallerFraming(req) == IF Mentions(req, CLKey) THEN "cl" ELSE IF Mentions(req, TEKey) THEN "te" ELSE "none"
+FramingMode(req) ==
+    IF req.chunked THEN "chunked"
+    ELSE IF CallerFraming(req) = "cl" THEN "cl"
+    ELSE IF CallerFraming(req) = "te" THEN "chunked"
+    ELSE IF req.body.kind = "none" THEN (IF MethodExpectsBody(req.method) THEN "cl" ELSE "none")
+    ELSE IF req.body.kind \in SizedKinds THEN "cl" ELSE "chunked"
+\* the automatic framing header: only where the caller has not supplied that header
 FramingLines(req) ==
-    CASE req.body.kind = "none" -> IF MethodExpectsBody(req.method) THEN <<Line(CLDisp, <<"0">>)>> ELSE <<>>
-      [] req.body.kind \in {"bytes", "str"} -> <<Line(CLDisp, DecDigits(Len(Payload(req))))>>
-      [] req.body.kind \in {"iter", "file"} -> <<Line(TEDisp, Chunked)>>
+    IF req.chunked THEN (IF CallerFraming(req) = "te" THEN <<>> ELSE <<Line(TEDisp, Chunked)>>)
+    ELSE IF CallerFraming(req) # "none" THEN <<>>
+    ELSE CASE FramingMode(req) = "none" -> <<>>
+           [] FramingMode(req) = "cl" -> <<Line(CLDisp, DecDigits(Len(Payload(req))))>>
+           [] FramingMode(req) = "chunked" -> <<Line(TEDisp, Chunked)>>
 ChunkFrame(c) == IF c = <<>> THEN <<>> ELSE HexDigitsOf(Len(c)) \o CRLF \o c \o CRLF      \* empty chunks are skipped
 BodyBytes(req) ==
-    CASE req.body.kind = "none" -> <<>>
-      [] req.body.kind \in {"bytes", "str"} -> Payload(req)
-      [] req.body.kind \in {"iter", "file"} ->
-           Flatten([i \in 1..Len(req.body.chunks) |-> ChunkFrame(req.body.chunks[i])]) \o <<"0">> \o CRLF \o CRLF
+    IF FramingMode(req) = "chunked"
+    THEN Flatten([i \in 1..Len(req.body.chunks) |-> ChunkFrame(EncChunk(req, req.body.chunks[i]))]) \o <<"0">> \o CRLF \o CRLF
+    ELSE Payload(req)
 
 -----------------------------------------------------------------------------
 (* 5  Serialize: the one canonical message                                     *)
